@@ -1,6 +1,9 @@
 """C01 - bottleneck distance is the true min-max matching cost"""
 import random
 
+import numpy as np
+import warnings
+
 from vlib.deductive import run_contracts
 from . import _dist_common as dc
 
@@ -37,6 +40,22 @@ def _standin(rep, tier, seed, only_search=False):
                 rep.violation("under PYTHONHASHSEED=%s bottleneck(%s, %s) = %r, optimum %r" % (s, a, b, d, want), "bottleneck:value:hashseed",
                               {"input": {"dgm1": a, "dgm2": b, "PYTHONHASHSEED": s}, "observed": d, "expected": want})
     evals += dc.view_cases(rep, KIND, rng, 12 if tier == "quick" else 300)
+    # integer diagrams whose coordinates are not representable as floats (time stamps, 2**60 + k): only differences matter
+    from persim import bottleneck as _bn
+    from fractions import Fraction as _F
+    for _ in range(12 if tier == "quick" else 200):
+        base = rng.choice([2 ** 60, 2 ** 55 + 12345, 1_700_000_000_000_000_000])
+        mk = lambda k: [[base + b, base + b + rng.randint(1, 9)] for b in (rng.randint(0, 12) for _i in range(k))]
+        A, B = mk(rng.randint(1, 3)), mk(rng.randint(1, 3))
+        want = dc.oracle(KIND, [[a - base, b - base] for a, b in A], [[a - base, b - base] for a, b in B])      # translation by an integer
+        with warnings.catch_warnings():
+            warnings.simplefilter("ignore")
+            got = float(_bn(np.array(A, dtype=np.int64), np.array(B, dtype=np.int64)))
+        evals += 1
+        if abs(got - want) > 1e-9:
+            rep.violation("bottleneck of int64 diagrams with coordinates near %d = %r, the optimal matching cost (exact in integers) is %r (offsets %s, %s)" % (base, got, want, [[a - base, b - base] for a, b in A], [[a - base, b - base] for a, b in B]),
+                          "bottleneck:value:huge-integers", {"input": {"base": base, "dgm1_offsets": [[a - base, b - base] for a, b in A], "dgm2_offsets": [[a - base, b - base] for a, b in B], "dtype": "int64"}, "observed": got, "expected": want})
+            break
     rep.bounded("bottleneck-vs-bruteforce", "all pairs of diagrams with <=2 points on a 3x3 lattice (+ one infinite bar), %d random pairs of <=4 points, scales 1e-9..1e6, %d hash seeds" % (150 if tier == "quick" else 4000, len(seeds)),
                 evals, len(distinct), "distinct = (feature class, sizes, source); oracle = threshold search + augmenting paths on the augmented matrix built from the statement", samples, exhaustive=True)
 
